@@ -333,6 +333,45 @@ func (w *World) AddWorktree(b string) error {
 	return nil
 }
 
+// Relink makes a commit on b that changes nothing but the type of p: ordinary file <-> symbolic link
+// whose target is the very same blob.
+func (w *World) Relink(b, p string, link bool) error {
+	if err := w.checkout(b, false, ""); err != nil {
+		return err
+	}
+	file := filepath.Join(w.Clone, PathFile(p))
+	r := w.Env.Git(w.Clone, "rev-parse", "HEAD:"+PathFile(p))
+	if !r.OK() {
+		return fmt.Errorf("relink: %s", r.All())
+	}
+	sha := strings.TrimSpace(r.Stdout)
+	mode := "100644"
+	os.Remove(file)
+	if link {
+		mode = "120000"
+		if err := os.Symlink(string(w.RawContent(p)), file); err != nil {
+			return err
+		}
+	} else if err := w.Env.WriteFile(file, w.RawContent(p), 0o644); err != nil {
+		return err
+	}
+	if _, err := w.git("update-index", "--cacheinfo", mode+","+sha+","+PathFile(p)); err != nil {
+		return err
+	}
+	date := w.Now - 3600 + int64(len(w.Commits))*60
+	rc := w.Env.GitDate(w.Clone, date, "commit", "-q", "-m", fmt.Sprintf("c%d %s relink %s", len(w.Commits)+1, b, p))
+	if !rc.OK() {
+		return fmt.Errorf("relink commit: %s", rc.All())
+	}
+	head, err := w.head()
+	if err != nil {
+		return err
+	}
+	w.Commits = append(w.Commits, head)
+	w.Br[b] = len(w.Commits)
+	return nil
+}
+
 // Chmod makes a commit on b that changes nothing but the executable bit of p.
 func (w *World) Chmod(b, p string, x bool) error {
 	if err := w.checkout(b, false, ""); err != nil {
